@@ -238,6 +238,22 @@ impl MT935 {
                 }
                 value.push_str(&field_23.reference);
 
+                // Values that did not come from the parser may hold anything: only ASCII can match 3!a[2!n]11x,
+                // and the byte slicing below needs it
+                if !value.is_ascii() {
+                    errors.push(SwiftValidationError::format_error(
+                        "T26",
+                        "23",
+                        &value,
+                        "3!a[2!n]11x",
+                        &format!(
+                            "Sequence {}: Field 23 must contain ASCII characters only",
+                            idx + 1
+                        ),
+                    ));
+                    continue;
+                }
+
                 // Minimum length check: 3 (currency) + at least one function character
                 if value.len() < 4 {
                     errors.push(SwiftValidationError::format_error(
